@@ -1,6 +1,7 @@
 """C19  Account configuration — Model/Config.lean vs the real config transforms / ConfigManager /
 StorageTools; oracle: every configuration survives both formats and all three load paths; a save
 killed at any file operation leaves a loadable old-or-new configuration."""
+import json
 import os
 import uuid
 
@@ -124,6 +125,11 @@ def cases(chk):
             yield "config", {"fmt": fmt, "how": how, "cfg": {"phone": "491234", "cc": 49, "client_static_keypair": "11" * 64, "pushname": "yo"}}
     yield "config", {"fmt": "keyval", "how": "profile-libsave", "cfg": {"phone": "491234", "cc": 49, "pushname": "yo"}}
     yield "config", {"fmt": "json", "how": "profile-libsave", "cfg": {"phone": "491234", "cc": 49, "pushname": "yo"}}
+    # text values that stress the file encoding: astral characters, Latin-1, an unpaired surrogate (JSON escapes it); saved through the
+    # library, loaded again here AND by a process that runs with the C locale
+    for how in ("profile-libsave", "dest", "profile"):
+        for pn in (u"caf\xe9", u"\u0416\u4e2d", u"smile \U0001f600", u"half \ud83d!", u"\udc00", u"a\u2028b"):
+            yield "config", {"fmt": "json", "how": how, "cfg": {"phone": "491234", "cc": 49, "client_static_keypair": "22" * 64, "pushname": pn}, "foreign": 1}
     for k in range(0, 8):
         yield "crash", {"kill": k, "torn": 0, "fresh": 0}
         yield "crash", {"kill": k, "torn": 1, "fresh": 0}
@@ -256,6 +262,26 @@ def run_config(chk, case):
     if got != want:
         diff = {k: (want.get(k), got.get(k)) for k in set(want) | set(got) if want.get(k) != got.get(k)}
         fails.append(oracle("C19:%s:differs" % fmt, "config %r (%s, %s): fields differ after reload: %r" % (case["cfg"], fmt, how, diff)))
+    if case.get("foreign") and not fails:
+        # the same profile / file loaded by a process whose default text encoding is not UTF-8 (C locale)
+        import subprocess
+        import sys
+        target = os.path.join(pdir, "config.json") if how in ("profile-libsave", "profile", "fresh-profile") else path
+        code = ("import sys, json; sys.path.insert(0, %r); import boot\n"
+                "from yowsup.config.manager import ConfigManager\n"
+                "c = ConfigManager().load(%r)\n"
+                "print(json.dumps(None if c is None else c.pushname))" % (os.path.dirname(os.path.dirname(os.path.abspath(__file__))), target))
+        env = dict(os.environ, LC_ALL="C", LANG="C", PYTHONUTF8="0", PYTHONCOERCECLOCALE="0", PYTHONIOENCODING="ascii:backslashreplace")
+        p = subprocess.run([sys.executable, "-c", code], env=env, stdout=subprocess.PIPE, stderr=subprocess.PIPE, timeout=60)
+        chk.hit("config:foreign-locale")
+        out = p.stdout.decode("ascii", "replace").strip().splitlines()
+        try:
+            back = json.loads(out[-1]) if out else None
+        except Exception:
+            back = None
+        if p.returncode != 0 or back != case["cfg"].get("pushname"):
+            fails.append(oracle("C19:%s:foreign-locale" % fmt, "config %r (%s, %s): a process running with the C locale loads pushname %r (exit %d: %s)"
+                                % (case["cfg"], fmt, how, back, p.returncode, p.stderr.decode("ascii", "replace").strip().splitlines()[-1:] )))
     return fails
 
 
